@@ -2,6 +2,7 @@ import Tapeverif.Lemmas.BigStep
 import Tapeverif.Lemmas.Algebra
 import Tapeverif.Lemmas.SigRefine
 import Tapeverif.Model.Tools
+import Tapeverif.Lemmas.RunInstr
 /-! # C05 — taproot: the root binds key and script; key path and script path are exact
 
 Instruction level (`OP_TAPROOT` as an op term of the VM model, executed symbolically with the
@@ -177,5 +178,68 @@ theorem builder_root_unfold (pk script : Bytes) :
       (do let t ← Sodium.clampScalar (H.sha256 (pk ++ H.sha256 script)) false
           let X ← Sodium.derivePoint C t
           Sodium.aggregatePoints C [pk, X]) := rfl
+
+/-! ### the lock (`push <root> taproot <flags>`), executed symbolically -/
+
+/-- the bytes of a (native) taproot lock for a given root -/
+def tapLock (root : Bytes) (flags : Nat) : Bytes := pushB root ++ (opc 91 ++ opc flags)
+
+theorem taprootLock_bytes (pk commitment root : Bytes) (flags : Nat) (h : taprootRoot H C pk commitment = .ok root) :
+    taprootLock H C pk commitment flags = .ok (tapLock root flags) := by
+  unfold taprootLock tapLock
+  rw [h]
+  simp [bind, Except.bind, pure, Except.pure, List.append_assoc]
+
+/-- **C05, the lock, key path: exact outcome.** A witness that leaves a non-32-byte item `sig` on
+    top: the lock ends with exactly the C02 verdict of `sig` under the **root** as public key
+    with the lock's permitted flags. -/
+theorem tapLock_keypath_run (cfg : Cfg) (hno : cfg.sigExts = []) (root sig : Bytes) (flags : Nat) (st : List Bytes) (sh : Shared) (count : Nat)
+    (hroot : root.length = 32) (hsig : sig.length ≠ 32) (hfl : flags < 256)
+    (hs : sh.stack = sig :: st) (hr : sh.returned = false)
+    (h32 : 32 ≤ cfg.lim.maxItemSize) (hroom : st.length + 2 ≤ cfg.lim.maxItems) :
+    Ends (instrTable H C cfg) cfg.lim (topFrame (tapLock root flags) count) sh
+      (fun r => Res.summary r = (match SigPure.checkSig H C cfg.lim.maxItemSize sh.cache flags sig root with
+          | .ok b => .ok (boolBytes b :: st)
+          | .error e => .error (.user e))) := by
+  unfold topFrame tapLock
+  generalize hl : (pushB root ++ (opc 91 ++ opc flags)).length = len
+  have hcap : len < len + 1 := by omega
+  refine Ends.step (fun r h => run_pushB H C cfg _ sh root _ r (by omega) (by omega) rfl hcap hr (by omega) (by rw [hs]; simp; omega) h) ?_
+  dsimp only
+  have hspec := taproot_key_path_spec H C cfg hno (instrTable H C cfg)
+    { rest := [UInt8.ofNat flags], count := count, fn := none, dict := 0, len0 := len, cap := len + 1 }
+    { sh with stack := root :: sh.stack } (UInt8.ofNat flags) [] root sig st rfl (by simp [hs]) hroot hsig h32 (by omega)
+  have hfl' : (UInt8.ofNat flags).toNat = flags := by simp [UInt8.toNat_ofNat', Nat.mod_eq_of_lt hfl]
+  rw [hfl'] at hspec
+  dsimp only at hspec
+  cases hc : SigPure.checkSig H C cfg.lim.maxItemSize sh.cache flags sig root with
+  | error e =>
+    rw [hc] at hspec
+    exact ⟨_, TSteps.cons_err 91 _ (by simp [opc]) hcap hr hspec, rfl⟩
+  | ok b =>
+    rw [hc] at hspec
+    exact ⟨_, TSteps.cons_ok 91 _ (by simp [opc]) hcap hr hspec (TSteps.nil rfl), rfl⟩
+
+/-- **C05, the lock, script path, a pair that does not recompute to the root**: the lock leaves
+    `00` — the verdict is false — and the supplied script is never evaluated (only the stack changed). -/
+theorem tapLock_scriptpath_mismatch (cfg : Cfg) (root pubkey script point : Bytes) (flags : Nat) (st : List Bytes) (sh : Shared) (count : Nat)
+    (hroot : root.length = 32) (hpk : pubkey.length = 32)
+    (hrc : recompute H C pubkey script = .ok point) (hne : point ≠ root)
+    (hs : sh.stack = pubkey :: script :: st) (hr : sh.returned = false)
+    (h32 : 32 ≤ cfg.lim.maxItemSize) (hroom : st.length + 3 ≤ cfg.lim.maxItems) :
+    TSteps (instrTable H C cfg) cfg.lim (topFrame (tapLock root flags) count) sh
+      (.ok { rest := [], count := count, fn := none, dict := 0, len0 := (tapLock root flags).length, cap := (tapLock root flags).length + 1 }
+           { sh with stack := [0x00] :: st }) := by
+  unfold topFrame tapLock
+  generalize hl : (pushB root ++ (opc 91 ++ opc flags)).length = len
+  have hcap : len < len + 1 := by omega
+  refine run_pushB H C cfg _ sh root _ _ (by omega) (by omega) rfl hcap hr (by omega) (by rw [hs]; simp; omega) ?_
+  dsimp only
+  have hm := taproot_script_mismatch H C cfg (instrTable H C cfg) .done
+    { rest := [UInt8.ofNat flags], count := count, fn := none, dict := 0, len0 := len, cap := len + 1 }
+    { sh with stack := root :: sh.stack } (UInt8.ofNat flags) [] root pubkey script point st _ rfl (by simp [hs]) hroot hpk hrc hne (by omega) (by omega)
+    (Steps.done _ _)
+  exact TSteps.cons_ok 91 _ (by simp [opc]) hcap hr hm (TSteps.nil rfl)
+
 
 end TV.C05
